@@ -29,6 +29,7 @@ RULE = (
     'method.__wrapped__ on the same object + reference values of a pristine twin object rebuilt from the raw arrays (it shares no trajectory, metadata dict, site structure or Transitions with the pool).  '
     'Non-trivial = the history achieved at least one address reuse and one cache hit; distinct = the step sequence.'
 )
+RULE += ' Added in rounds 5-10: metrics objects on related trajectories with twins rebuilt from raw arrays; collective results checked against the loop model; copy / deepcopy / pickle of live objects pointed at other data; explicit falsy and negative arguments.'
 ASSUMPTIONS = [
     'single-threaded (GEMDAT has no threads): "schedules" are garbage-collection / allocation schedules',
     'K6 (cached Collective keeps its Jumps alive) tolerated only for a Jumps on which collective() was called, when every non-frame referrer is the __dict__ of a Collective (or of the surviving Jumps for its Transitions)',
